@@ -18,7 +18,7 @@ const FILLER: [&str; 14] = [
 
 struct Template { name: &'static str, text: &'static str, msg: &'static str, want: &'static str, last_only: bool }
 
-const TEMPLATES: [Template; 41] = [
+const TEMPLATES: [Template; 49] = [
     Template { name: "unrecognized-ascii", text: "let a = 1 $ 2\n", msg: "Unrecognized token", want: "$", last_only: false },
     Template { name: "unrecognized-nonascii", text: "let a = 1 é 2\n", msg: "Unrecognized token", want: "é", last_only: false },
     Template { name: "unrecognized-nonascii4", text: "let a = 😀\n", msg: "Unrecognized token", want: "😀", last_only: false },
@@ -60,6 +60,15 @@ const TEMPLATES: [Template; 41] = [
     Template { name: "empty-parens-pattern", text: "let ep = match 5 {\n    () -> 1\n    _ -> 2\n}\n", msg: "Parentheses are empty", want: "()", last_only: false },
     Template { name: "int-pattern-out-of-range", text: "let ip = match 5 {\n    99_999_999_999_999_999_999 -> \"ü\"\n    _ -> \"x\"\n}\n", msg: "Could not parse integer literal", want: "99_999_999_999_999_999_999", last_only: false },
     Template { name: "unresolvable-use", text: "use no_such_module\n", msg: "Could not resolve identifier", want: "use no_such_module", last_only: false },
+    // ---- postfix forms on a PARENTHESISED operand: the node starts at the `(`, not at the inner expression
+    Template { name: "postfix-method-call-on-paren", text: "extend int {\n  fn plus(self, s: int) -> int { self + s }\n}\nlet pm = (1 + 2).plus(\"três\")\n", msg: "Wrong argument type", want: "(1 + 2).plus(\"três\")", last_only: false },
+    Template { name: "postfix-call-on-paren", text: "let pc = (5)(1)\n", msg: "Wrong argument type", want: "(5)(1)", last_only: false },
+    Template { name: "postfix-index-on-paren", text: "let pi = (5)[0]\n", msg: "Interface `Index` is not implemented", want: "(5)[0]", last_only: false },
+    Template { name: "postfix-try-on-paren", text: "let po: option<int> = .some(1)\nlet pq = (po)?\n", msg: "Cannot use `?` operator at the top level", want: "(po)?", last_only: false },
+    Template { name: "postfix-call-on-paren-nested", text: "let pn = ((5))(\"é\", (2))\n", msg: "Wrong argument type", want: "((5))(\"é\", (2))", last_only: false },
+    Template { name: "postfix-index-on-paren-call", text: "let px = (5)[0](1)\n", msg: "Interface `Index` is not implemented", want: "(5)[0]", last_only: false },
+    Template { name: "postfix-unwrap-on-paren", text: "let pu = (5)!\n", msg: "Interface `Unwrap` is not implemented", want: "5", last_only: false },
+    Template { name: "postfix-member-on-paren", text: "let xs9 = [1]\nlet pmm = (xs9).nope(1)\n", msg: "Could not resolve member function", want: "xs9", last_only: false },
     Template { name: "unexpected-eof", text: "let a = 1 +", msg: "Unexpected token", want: "<eof>", last_only: true },
 ];
 
@@ -77,6 +86,24 @@ fn diagnostics(src: &str) -> Result<Vec<Diag>, String> {
         }).collect()),
         Err(p) => Err(panic_msg(p)),
     }
+}
+
+/// brackets of the labelled text are balanced (string literals skipped); a label that starts or ends
+/// inside a bracket pair does not cover a construct
+fn balanced(text: &str) -> bool {
+    let mut stack: Vec<char> = vec![];
+    let mut chars = text.chars().peekable();
+    while let Some(c) = chars.next() {
+        match c {
+            '"' | '\'' => { while let Some(d) = chars.next() { if d == '\\' { chars.next(); } else if d == c { break; } } }
+            '(' | '[' | '{' => stack.push(c),
+            ')' => if stack.pop() != Some('(') { return false; },
+            ']' => if stack.pop() != Some('[') { return false; },
+            '}' => if stack.pop() != Some('{') { return false; },
+            _ => {}
+        }
+    }
+    stack.is_empty()
 }
 
 fn range_ok(src: &str, r: &std::ops::Range<usize>) -> Result<(), String> {
@@ -152,6 +179,19 @@ fn main() {
                 if *f == 0 {
                     if let Err(why) = range_ok(&j.src, r) {
                         ctx.spec_fail(format!("{}: diagnostic {:?}: secondary label {why}; source {:?}", t.name, d.message, j.src));
+                    }
+                }
+            }
+            // generic oracle: a label covers a whole construct, so its brackets are balanced
+            // (diagnostics about a single token, which may itself be a bracket, excepted)
+            if !d.message.starts_with("Unexpected token") && !d.message.starts_with("Unrecognized") {
+                let mut labels = vec![d.range.clone()];
+                for (f, r) in &d.secondary { if *f == 0 && range_ok(&j.src, r).is_ok() { labels.push(r.clone()); } }
+                for r in labels {
+                    ctx.count("oracle:balanced-label");
+                    if !balanced(&j.src[r.clone()]) {
+                        ctx.spec_fail(format!("{}: diagnostic {:?}: the label {:?} covers {:?}, which starts or ends inside a bracket pair; source {:?}",
+                            t.name, d.message, r, &j.src[r.clone()], j.src));
                     }
                 }
             }
